@@ -13,7 +13,7 @@ The generator understands exactly the skeleton these files have today:
 and fails loudly (exception -> the check reports the tie as broken) on anything else.
 
 Statement templates (the statements core of Model/EmitStmt: emitLines is an interpreter of these lines):
-  assign/move_assign.j2, assign/move_assign_declare.j2 (the plain branch: neither `is_initializer` nor `is_static`),
+  assign/move_assign.j2, assign/aug_assign.j2, assign/move_assign_declare.j2 (the plain branch: neither `is_initializer` nor `is_static`),
   statement/return.j2 (the branch with a return value), flow/if/{if,else_if,else}.j2 (not the `std::is_same_v` / constexpr forms),
   flow/while.j2, flow/for/range.j2.
 For each file the translator checks the WHOLE file against the skeleton it has today (the statements block
@@ -244,7 +244,7 @@ def parse_template(path: str, i18n: I18n) -> list[tuple[Any, list[tuple[str, str
 
 STMT_DIR = 'data/cpp/template'
 BODY_BLOCK = ["{%- filter indent('\\t') %}", '{%- for statement in statements %}', '{{ statement }}', '{%- endfor %}', '{%- endfilter %}']
-STMT_SOURCES = ['assign/move_assign.j2', 'assign/move_assign_declare.j2', 'statement/return.j2', 'flow/if/if.j2', 'flow/if/else_if.j2', 'flow/if/else.j2',
+STMT_SOURCES = ['assign/move_assign.j2', 'assign/aug_assign.j2', 'assign/move_assign_declare.j2', 'statement/return.j2', 'flow/if/if.j2', 'flow/if/else_if.j2', 'flow/if/else.j2',
 	'flow/while.j2', 'flow/for/range.j2']
 
 
@@ -276,6 +276,10 @@ def parse_statement_templates(i18n: I18n) -> dict[str, Any]:
 	if len(got) != 1:
 		raise ValueError('assign/move_assign.j2: expected a single content line')
 	lines['stmtAssign'] = head('assign/move_assign.j2', got[0])
+	got = _lines('assign/aug_assign.j2')
+	if len(got) != 1:
+		raise ValueError('assign/aug_assign.j2: expected a single content line')
+	lines['stmtAug'] = head('assign/aug_assign.j2', got[0])
 	# assign/move_assign_declare.j2: if is_initializer / elif is_static / else <plain> / endif
 	got = _lines('assign/move_assign_declare.j2')
 	if len(got) != 7 or [got[0], got[2], got[4], got[6]] != ['{%- if is_initializer -%}', '{%- elif is_static -%}', '{%- else -%}', '{%- endif -%}']:
@@ -403,6 +407,19 @@ def parse_ladder(path: str = 'data/grammar.lark') -> tuple[list[dict[str, Any]],
 
 # ---------------------------------------------------------------------------------------------
 # C++ precedence table of the emitter (py2cpp.py, class CppOperatorPrecedences)
+
+
+def parse_aug_ops(path: str = 'data/grammar.lark') -> list[str]:
+	"""the terminals of `aug_assign_op` (the operators an augmented assignment can carry)"""
+	with open(path, encoding='utf-8') as f:
+		rules = [ln for ln in f.read().split('\n') if re.match(r'!?aug_assign_op\s*:', ln)]
+	if len(rules) != 1:
+		raise ValueError(f'{path}: expected exactly one aug_assign_op rule, found {len(rules)}')
+	body = rules[0].split(':', 1)[1]
+	ops = re.findall(r'"([^"\s]+=)"', body)
+	if not ops or ' | '.join(f'"{o}"' for o in ops) != body.strip():
+		raise ValueError(f'{path}: unexpected aug_assign_op rule {body.strip()!r}')
+	return ops
 
 
 def parse_precedences(path: str = 'rogw/tranp/implements/cpp/transpiler/py2cpp.py') -> tuple[int, list[tuple[str, int]]]:
@@ -545,6 +562,11 @@ def render() -> tuple[str, int]:
 	out.append('def cppPrecBinary : List (Str × Nat) := [')
 	out.append(',\n'.join(f'  ({lstr(k)}, {v})' for k, v in binary))
 	out.append(']')
+	out.append('')
+	aug = parse_aug_ops()
+	entries += len(aug)
+	out.append('/-- data/grammar.lark `aug_assign_op`: the operator tokens of an augmented assignment -/')
+	out.append(f"def augAssignOps : List Str := [{', '.join(lstr(o) for o in aug)}]")
 	out.append('')
 	st = parse_statement_templates(i18n)
 	entries += len(st['lines']) + len(st['tails'])
